@@ -62,8 +62,45 @@ func (h *runner) violation(line int, class, msg string) {
 }
 
 // check runs one query under every configuration.
+// checkOutside: a statement outside the subset with a known configuration-dependent answer:
+// both sides print a fixed marker; the answers as returned are compared with each other (and,
+// for OFFSET without LIMIT, with "skip the first rows").
+func (h *runner) checkOutside(q query, cls, phase string) {
+	c := h.c
+	marker := "ans ?" + cls
+	c.Emit(fmt.Sprintf("q %s @ go-reference", q.opText()), marker)
+	var raws []string
+	var lines []int
+	for _, cf := range h.configs {
+		raw := h.run(q, cf)
+		ca, _ := canonImpl(q, h.d, raw)
+		raws = append(raws, ca.text())
+		lines = append(lines, c.Emit(fmt.Sprintf("q %s @ %s %s ds=%d dep=%dx%d", q.opText(), cf.text(), phase, h.idx, h.dp.nPts, h.dp.nShards), marker))
+	}
+	want := ""
+	if cls == "offset-without-limit" {
+		want = oracle(q, h.d).text()
+	}
+	for i := range raws {
+		if (want != "" && raws[i] != want) || raws[i] != raws[0] {
+			ref := want
+			if ref == "" {
+				ref = "(no reference: interpolation not modelled)"
+			}
+			h.violation(lines[i], cls, fmt.Sprintf("ds=%d ["+h.dp.text()+"] %s answers %s under [%s] and %s under [%s] (%s); reference %s; data: %s; history: %s", h.idx, q.sql(), clip(raws[0]), h.configs[0].text(), clip(raws[i]), h.configs[i].text(), phase, clip(ref), clip(h.d.text()), h.d.history()))
+			break
+		}
+	}
+	c.Count("query:outside-the-subset:" + cls)
+	c.Case(fmt.Sprintf("%d/%s/%s", h.idx, q.opText(), phase), true)
+}
+
 func (h *runner) check(q query, phase string) {
 	c := h.c
+	if cls := q.outside(); cls != "" {
+		h.checkOutside(q, cls, phase)
+		return
+	}
 	want := oracle(q, h.d).text()
 	// the reference evaluation in Go is itself compared with the Lean evaluator
 	c.Emit(fmt.Sprintf("q %s @ go-reference", q.opText()), want)
@@ -187,7 +224,7 @@ func classify(q query, kind string) string {
 
 func (h *runner) checkDescPair(q query) {
 	// a descending query returns the ascending answer reversed (same limit-free query both ways)
-	if q.limit > 0 || q.offset > 0 {
+	if q.limit > 0 || q.offset > 0 || q.outside() != "" {
 		return
 	}
 	if q.agg && q.interval > 0 && q.fill == "previous" {
